@@ -84,6 +84,42 @@ func buildWorld(seed uint64, n int) *world {
 		}
 		w.geoms = append(w.geoms, x)
 	}
+	// derived operands whose coordinate storage is shared with other pool members or has
+	// spare capacity (as parsed or computed geometries have): aliasing bugs need these
+	base := len(w.geoms)
+	for i := 0; i < base && i < 24; i++ {
+		g := w.geoms[i]
+		switch i % 4 {
+		case 0: // parsed from text
+			if p, err := geom.UnmarshalWKT(g.AsText(), geom.NoValidate{}); err == nil {
+				w.geoms = append(w.geoms, p)
+				if !p.IsEmpty() {
+					w.geoms = append(w.geoms, geom.NewGeometryCollection([]geom.Geometry{p, geom.NewPointXY(100, 200).AsGeometry()}).AsGeometry())
+				}
+			}
+		case 1: // pieces of a set-operation result (windows onto shared arrays)
+			o := w.geoms[(i+7)%base]
+			for _, f := range []func(a, b geom.Geometry) (geom.Geometry, error){geom.Difference, geom.Intersection, geom.Union} {
+				r, err := f(g, o)
+				if err != nil || r.IsEmpty() {
+					continue
+				}
+				w.geoms = append(w.geoms, r)
+				parts := r.Dump()
+				if len(parts) >= 2 {
+					w.geoms = append(w.geoms, geom.NewGeometryCollection([]geom.Geometry{parts[0], geom.NewPointXY(100, 200).AsGeometry()}).AsGeometry())
+					w.geoms = append(w.geoms, geom.NewGeometryCollection([]geom.Geometry{parts[len(parts)-1], parts[0]}).AsGeometry())
+				}
+				break
+			}
+		case 2: // a LineString that is a slice of a longer one's sequence
+			long := geom.NewLineStringXY(0, 0, 1, 3, 2, 1, 4, 4, 5, 0, 7, 2, 8, 8)
+			w.geoms = append(w.geoms, long.AsGeometry())
+			short := geom.NewLineString(long.Coordinates().Slice(0, 3))
+			w.geoms = append(w.geoms, short.AsGeometry())
+			w.geoms = append(w.geoms, geom.NewGeometryCollection([]geom.Geometry{short.AsGeometry(), geom.NewPointXY(100, 200).AsGeometry(), g}).AsGeometry())
+		}
+	}
 	for ti := 0; ti < 3; ti++ {
 		m := []int{7, 60, 900}[ti]
 		items := make([]rtree.BulkItem, m)
@@ -374,6 +410,13 @@ func runAll(c *run.Ctx) {
 			if cl.tree < 0 {
 				ok := snapshot(w.geoms[cl.a]) == snaps[cl.a] && snapshot(w.geoms[cl.b]) == snaps[cl.b]
 				k.Check("operand-unchanged", ok, "%s changed the observable value of an operand", key)
+				// no other geometry of the pool (which may share storage with the operands) changed either
+				for i, g := range w.geoms {
+					if snapshot(g) != snaps[i] {
+						k.Check("operand-unchanged", false, "%s changed the observable value of pool geometry %d (not an operand of the call): now %s", key, i, g.AsText())
+						snaps[i] = snapshot(g)
+					}
+				}
 			} else {
 				t := w.trees[cl.tree]
 				e, _ := t.t.Extent()
